@@ -53,11 +53,13 @@ theorem skel_resetReadDeadline_shape :
 theorem skel_nextMessage_shape :
     Generated.skel_nextMessage = [
   "c.resetReadDeadline()",
-  "msgType, r, err := c.conn.NextReader()",
+  "conn := c.conn",
+  "msgType, r, err := conn.NextReader()",
   "if err != nil",
   "  c.errLk.Lock()",
   "  c.incomingErr = err",
   "  c.errLk.Unlock()",
+  "  _ = conn.Close()",
   "  close(c.incoming)",
   "  return",
   "if msgType != websocket.BinaryMessage && msgType != websocket.TextMessage",
